@@ -192,6 +192,7 @@ def run(ctx):
         raise core.MachineryError("harness produced records outside the spec's table/domains: %s" % bad[:5])
     ctx.judge(jobs, recs, verdicts, what=rc.describe)
     ctx.extra["verdict_counts"] = rc.count_verdicts(recs, verdicts)
+    rc.note_never_judged(ctx, recs, verdicts)
     seen, per_pair = set(), {}
     for j, r, v in zip(jobs, recs, verdicts):
         if not v[0].startswith("skip:") and any(x not in (0, core_nan()) for x in r.get("out1", [])):
